@@ -405,6 +405,91 @@ func c20SessionWalkSendsAllNames(r *Run) {
 			"the request carries something other than the caller's name list (e.g. a truncated prefix): the server completes and binds a walk the caller takes for incomplete — the new fid is leaked")
 	})
 	r.Floor("walk", n, 1, "Twalk literal in client.Walk")
+	// what the call reports is what the server answered: the qids handed back on success are the Rwalk's own list
+	// (its length is how the layer above tells a completed walk from a partial one)
+	var isReplyQids func(f *ssa.Function, v ssa.Value, d int) bool
+	isReplyQids = func(f *ssa.Function, v ssa.Value, d int) bool {
+		v = stripConv(v)
+		switch x := v.(type) {
+		case *ssa.Field:
+			if fieldNameV(x.X.Type(), x.Field) != "Qids" || !isP9P(x.X.Type(), "MessageRwalk") {
+				return false
+			}
+			src := x.X
+			if ex, ok := src.(*ssa.Extract); ok {
+				src = ex.Tuple
+			}
+			_, isTA := src.(*ssa.TypeAssert)
+			return isTA
+		case *ssa.UnOp:
+			if fad, ok := x.X.(*ssa.FieldAddr); ok && x.Op == token.MUL && fieldName(fad.X.Type(), fad.Field) == "Qids" {
+				if ta, ok := stripConv(fad.X).(*ssa.TypeAssert); ok {
+					_ = ta
+					return true
+				}
+				if ex, ok := fad.X.(*ssa.Extract); ok {
+					_, isTA := ex.Tuple.(*ssa.TypeAssert)
+					return isTA
+				}
+				if al, ok := fad.X.(*ssa.Alloc); ok && !al.Heap && isP9P(al.Type(), "MessageRwalk") {
+					// a local holding the asserted reply: every store into it is the type assertion's value
+					ns, good := 0, true
+					for _, ref := range *al.Referrers() {
+						if st, ok := ref.(*ssa.Store); ok && st.Addr == ssa.Value(al) {
+							ns++
+							src := st.Val
+							if ex, ok := src.(*ssa.Extract); ok {
+								src = ex.Tuple
+							}
+							if _, isTA := src.(*ssa.TypeAssert); !isTA {
+								good = false
+							}
+						}
+					}
+					return ns > 0 && good
+				}
+			}
+			if sl := storedLocal(x); sl != nil && sl != ssa.Value(x) {
+				return isReplyQids(f, sl, d+1)
+			}
+		case *ssa.Phi:
+			if d > 3 {
+				return false
+			}
+			for _, e := range x.Edges {
+				if !isNilConst(e) && !isReplyQids(f, e, d+1) {
+					return false
+				}
+			}
+			return true
+		case *ssa.Extract:
+			if call, ok := x.Tuple.(*ssa.Call); ok && d < 2 {
+				if g := call.Call.StaticCallee(); g != nil && g.Blocks != nil {
+					all := true
+					for _, gr := range returnsOf(g) {
+						if x.Index < len(gr.Results) && !isNilConst(gr.Results[x.Index]) && !isReplyQids(g, gr.Results[x.Index], d+1) {
+							all = false
+						}
+					}
+					return all
+				}
+			}
+		}
+		return false
+	}
+	nr := 0
+	for _, ret := range returnsOf(cw) {
+		if len(ret.Results) != 2 || isNilConst(ret.Results[0]) {
+			continue
+		}
+		if !isNilConst(ret.Results[1]) && errNeverNilAt(ret.Results[1], ret) {
+			continue
+		}
+		nr++
+		r.Check(isReplyQids(cw, ret.Results[0], 0), "walk", "client.Walk: on success the qids returned are the Rwalk's own list", ret.Pos(),
+			"the list handed back is not the reply's: its length no longer tells how far the server walked, and a partial walk can be taken for a complete one")
+	}
+	r.Floor("walk", nr, 1, "success return of client.Walk")
 }
 
 // Attach/Auth: every entry handed out on success carries a fid obtained from the allocator in this very call and
